@@ -77,7 +77,8 @@ fn check_cfg(ctx: &Ctx, cfg: &Cfg, dp: usize) -> CfgOut {
     let prefix_alpha = with_reset(generic_alphabet(cfg.kind, true));
     let cont_alpha = continuation_alphabet(cfg.kind);
     let n = cfg.max_period();
-    let cont_len = (n + 2).max(4);
+    // (periods beyond any window: the indicator never leaves warm-up, 4 steps suffice)
+    let cont_len = if n > 4096 { 4 } else { (n + 2).max(4) };
     let fresh = make(cfg);
     let fresh_key = state_key(fresh.as_ref(), &[]);
     let fresh_params = params_text(fresh.as_ref());
@@ -257,8 +258,21 @@ pub fn run(ctx: &Ctx) -> CheckResult {
     for k in ALL_KINDS {
         cfgs.extend(generic_cfgs(k, &[1, 2, 3, 4], &[1, 2, 3]));
     }
+    // periods at and beyond 2^32 for the indicators that allocate no window of that size
+    {
+        use crate::subjects::Kind;
+        for &n in &[(1usize << 32) + 2, usize::MAX] {
+            cfgs.push(Cfg::p1(Kind::Ema, n));
+            cfgs.push(Cfg::p1(Kind::Atr, n));
+            cfgs.push(Cfg::p1(Kind::Rsi, n));
+            cfgs.push(Cfg::pm(Kind::Kc, n, 2.0));
+            cfgs.push(Cfg::p3(Kind::Macd, n, 5, n));
+            cfgs.push(Cfg::p3(Kind::Ppo, 3, n, 2));
+            cfgs.push(Cfg::p2(Kind::SlowStoch, 3, n));
+        }
+    }
     // heavier first
-    cfgs.sort_by_key(|c| std::cmp::Reverse(c.max_period()));
+    cfgs.sort_by_key(|c| std::cmp::Reverse(if c.max_period() > 4096 { 4 } else { c.max_period() }));
     let outs = par_run(ctx, &cfgs, |_, cfg| check_cfg(ctx, cfg, dp));
     let mut rows = vec![];
     let mut max_keys = 0;
@@ -307,7 +321,7 @@ pub fn run(ctx: &Ctx) -> CheckResult {
     res.extra.insert("post_reset_states".into(), json!(rows));
     res.extra.insert("max_distinct_post_reset_states".into(), json!(max_keys));
     res.rule = "case = (configuration, prefix history incl. NaN/inf/extreme values and resets, reset(), continuation): every continuation of length max(n+2,4) over finite values + NaN + inf compared step by step (1e-12 relative, NaN==NaN) with a fresh instance; continuations are explored for the first two prefixes reaching each distinct post-reset concrete state and for all prefixes of length <= 1; non-trivial = non-empty prefix".into();
-    res.bounds = format!("all 22 indicators, periods 1..4 (tuples over {{1,2,3}}), every prefix in seq(4 values + 4 special + reset, {dp}), every continuation of length max(n+2,4) over 5 symbols; plus long-prefix family: every prefix length 0..=3n+3 of 4 default streams (incl. NaN/inf deviations) -> reset -> 3 continuations of n+2 inputs for periods up to {}", if th { 256 } else { 64 });
+    res.bounds = format!("all 22 indicators, periods 1..4 (tuples over {{1,2,3}}; periods 2^32+2 and usize::MAX for EMA/ATR/RSI/KC/MACD/PPO/SLOW_STOCH with 4-step continuations), every prefix in seq(4 values + 4 special + reset, {dp}), every continuation of length max(n+2,4) over 5 symbols; plus long-prefix family: every prefix length 0..=3n+3 of 4 default streams (incl. NaN/inf deviations) -> reset -> 3 continuations of n+2 inputs for periods up to {}", if th { 256 } else { 64 });
     res.assumptions = vec!["two instances with identical bincode bytes and identical Debug rendering have identical futures (used only to de-duplicate continuation exploration; every reported difference is a real execution)".into()];
     res
 }
